@@ -96,7 +96,14 @@ func litmusPrograms() []litmus {
 			done := make(chan bool, 2)
 			n := 0
 			for i := 0; i < 2; i++ {
-				mcrt.Go(func() { mu.Lock(); v := n; mcrt.Yield("litmus"); n = v + 1; mu.Unlock(); mcrt.Send(done, true) })
+				mcrt.Go(func() {
+					mu.Lock()
+					v := n
+					mcrt.Yield("litmus")
+					n = v + 1
+					mu.Unlock()
+					mcrt.Send(done, true)
+				})
 			}
 			mcrt.Recv(done)
 			mcrt.Recv(done)
@@ -108,7 +115,14 @@ func litmusPrograms() []litmus {
 			a, b := 0, 0
 			res := make(chan string, 1)
 			done := make(chan bool, 1)
-			mcrt.Go(func() { mu.Lock(); a = 2; mcrt.Yield("litmus"); b = 2; mu.Unlock(); mcrt.Send(done, true) })
+			mcrt.Go(func() {
+				mu.Lock()
+				a = 2
+				mcrt.Yield("litmus")
+				b = 2
+				mu.Unlock()
+				mcrt.Send(done, true)
+			})
 			mcrt.Go(func() { mu.RLock(); x, y := a, b; mu.RUnlock(); mcrt.Send(res, fmt.Sprint(x, ",", y)) })
 			r := mcrt.Recv(res)
 			mcrt.Recv(done)
